@@ -198,15 +198,17 @@ def cli_forwarding_check(prop, quick=True):
                         if mine:
                             return n, (' '.join(cmd[2:]), mine[0] + ' (command-line front end)')
             # batch mode, without and with --seed (a seed must not override the requested protocol: seed % 6 != P here)
-            for seedargs in ([], ['--seed', str(P + 1)], ['--seed', str(6 * 7 + ((P + 3) % 6))]):
+            # ... and with well-formed, inverted, equal and empty opcode ranges (the pair must arrive in the order given)
+            for seedargs, (a, b) in (([], (20, 60)), (['--seed', str(P + 1)], (20, 60)), (['--seed', str(6 * 7 + ((P + 3) % 6))], (20, 60)),
+                                     ([], (40, 10)), (['--seed', str(P + 7)], (40, 10)), ([], (30, 30)), ([], (0, 0))):
                 d = os.path.join(out, 'batch')
                 shutil.rmtree(d, ignore_errors=True)
-                cmd = [exe, '--dir', d, '--samples', '24' if quick else '240', '--protocol', str(P), '--min-opcodes', '20', '--max-opcodes', '60'] + seedargs
+                cmd = [exe, '--dir', d, '--samples', '24' if quick else '240', '--protocol', str(P), '--min-opcodes', str(a), '--max-opcodes', str(b)] + seedargs
                 r = subprocess.run(cmd, capture_output=True, text=True)
                 n += 1
                 if r.returncode == 0 and os.path.isdir(d):
                     for fn in sorted(os.listdir(d)):
-                        errs = refcheck.check_all(open(os.path.join(d, fn), 'rb').read(), P, unsafe=False, ext=False, buffer=False, min_ops=20, max_ops=60)
+                        errs = refcheck.check_all(open(os.path.join(d, fn), 'rb').read(), P, unsafe=False, ext=False, buffer=False, min_ops=a, max_ops=b)
                         mine = [e for e in errs if e.startswith(prop)]
                         if mine:
                             return n, (' '.join(cmd[1:]) + ' file ' + fn, mine[0] + ' (command-line front end, batch mode)')
